@@ -78,6 +78,7 @@ def run(ctx):
         from .. import named
         named.monitor(ctx, ['rdd2:control_allocation'], ctx.rng("named"))
         ctx.require("call_by_argument_name", "(by-name calls never evaluated)")
+        named.derivation_history(ctx, ['rdd2'], ctx.rng("named2"))
     from cyecca.models import rdd2
     rng = ctx.rng("c13")
     f = lib_call(ctx, "derive", "control_allocation", lambda: rdd2.derive_control_allocation()["f_alloc"], not_implemented_ok=False)
